@@ -6,7 +6,7 @@ import vlib
 SEM = os.path.join(vlib.VERIF, "spec", "sem")
 
 
-def run_scenarios(res, scen_list, monitor, spec_dir=SEM, tag="", timeout=1500, sub="seq", par=16, procs=1, race=False):
+def run_scenarios(res, scen_list, monitor, spec_dir=SEM, tag="", timeout=1500, sub="seq", par=16, procs=1, race=False, crash_is_violation=False):
     """scen_list: list of scenario dicts without 'tr'. Returns number of traces validated. Adds violations to res."""
     if not scen_list:
         return 0
@@ -53,6 +53,13 @@ def run_scenarios(res, scen_list, monitor, spec_dir=SEM, tag="", timeout=1500, s
             res.notes.append("race detector report concerning only the harness: %s" % (tops[:2],))
     if rc == 66 and races:
         rc = 0          # exit code of a race-enabled binary that reported races; the trace is still validated
+    if rc != 0 and crash_is_violation and ("fatal error:" in out or "\npanic:" in out) and "github.com/rulego/streamsql" in out:
+        # the Go runtime killed the driver process from engine code (unrecoverable: concurrent map access, nil dereference in an engine goroutine ...)
+        import re as _re
+        m = _re.search(r"(fatal error:[^\n]*|panic:[^\n]*)", out)
+        i = out.find(m.group(1)) if m else 0
+        res.violation("engine_crashed_the_process: %s" % (m.group(1) if m else "?"), {"family": tag, "crash": out[i:i + 4000]})
+        return 0
     if rc != 0:
         raise vlib.Inconclusive("driver failed:\n" + out[-3000:])
     inc = [l for l in out.splitlines() if l.startswith("INCONCLUSIVE")]
